@@ -1,4 +1,5 @@
 """C12 — bytes never written read as zero; old data is never exposed."""
+import fscklib
 import seqlib
 import vlib
 
@@ -22,6 +23,11 @@ def run(ctx):
         if lines is not None:
             seqlib.analyse(ctx, lines, tr, ok_drv, "C12", relevant_ops={"read", "readlink"})
             ctx.cov["reads_compared"] = len([l for l in lines if l.startswith("read ")])
+        # out of space inside bmap: the index block of a refused WRITE goes back to the allocator and to another file; the file of the
+        # refused WRITE is grown over that offset and the never-written block is read (must be zeros or NOSPC, never the other file's bytes)
+        rl = fscklib.run_images(ctx, ok_drv, "reclaim", ["reclaim", "-seed", str(ctx.seed)] + (["-hists", "6", "-rounds", "2"] if ctx.tier == "thorough" else ["-hists", "2", "-rounds", "1"]), set(), False)
+        fscklib.oracle_lines(ctx, rl, "C12", "harness reclaim -seed %d (full-disk scenarios: a never-written block read after the index block of a refused WRITE was reused)" % ctx.seed)
+        ctx.cov["full_disk_histories"] = len([l for l in rl or [] if l.startswith("# HIST")])
     vlib.finish(
         ctx, "proof",
         "theorems (byte level): a byte not written since the last truncation at or below it reads as zero; shrink to any size then grow exposes zeros; "
